@@ -143,6 +143,21 @@ class PyRepo:
             raise AnalysisError(f"anchor function missing: {rel}:{qualname}")
         return m.functions[qualname]
 
+    def inlined(self, rel, qualname):
+        """the function with calls of small private helpers of its class /
+        module replaced by their bodies (memoised)"""
+        key = (rel, qualname)
+        cache = self.__dict__.setdefault("_inl_cache", {})
+        if key not in cache:
+            mod = self.module(rel)
+            fn = self.func(rel, qualname)
+            cls = None
+            if "." in qualname:
+                cname = qualname.rsplit(".", 1)[0]
+                cls = mod.classes.get(cname)
+            cache[key] = inline_helpers(mod, cls, fn)
+        return cache[key]
+
     def has_func(self, rel, qualname):
         return rel in self.modules and qualname in self.modules[rel].functions
 
@@ -490,6 +505,64 @@ def inline_helpers(module, cls, fn, depth=2, _counter=[0]):
             res.append(s)
         return res
     fn.body = process(fn.body, depth)
+
+    # expression-level: helpers whose body is a single `return <expr>`
+    def expr_helper(call):
+        target, is_method = callee_of(call)
+        if target is None or target.name == fn.name:
+            return None
+        a = target.args
+        if a.vararg or a.kwarg or target.decorator_list:
+            return None
+        body = [s for s in target.body if not (
+            isinstance(s, ast.Expr) and isinstance(s.value, ast.Constant)
+            and isinstance(s.value.value, str))]
+        if len(body) != 1 or not isinstance(body[0], ast.Return) \
+                or body[0].value is None:
+            return None
+        if any(isinstance(n, (ast.Lambda, ast.Yield, ast.YieldFrom,
+                              ast.NamedExpr)) for n in ast.walk(body[0])):
+            return None
+        if any(isinstance(x, ast.Starred) for x in call.args) or any(
+                k.arg is None for k in call.keywords):
+            return None
+        params = [x.arg for x in a.args]
+        mapping = {}
+        if is_method:
+            mapping[params[0]] = ast.Name(selfn, ast.Load())
+            params = params[1:]
+        if len(call.args) > len(params):
+            return None
+        for p_, v in zip(params, call.args):
+            mapping[p_] = v
+        for k in call.keywords:
+            mapping[k.arg] = k.value
+        dflt = dict(zip([x.arg for x in a.args][-len(a.defaults):],
+                        a.defaults)) if a.defaults else {}
+        for p_ in params:
+            if p_ not in mapping:
+                if p_ not in dflt:
+                    return None
+                mapping[p_] = dflt[p_]
+        # arguments are substituted textually: only side-effect-free ones
+        for v in mapping.values():
+            if any(isinstance(n, (ast.Call, ast.Yield, ast.NamedExpr))
+                   for n in ast.walk(v)) and sum(
+                    1 for n in ast.walk(body[0].value)
+                    if isinstance(n, ast.Name)) > 12:
+                return None
+        return _Renamer(mapping).visit(copy.deepcopy(body[0].value))
+
+    class _ExprInl(ast.NodeTransformer):
+        def visit_Call(self, node):
+            self.generic_visit(node)
+            new = expr_helper(node)
+            if new is not None:
+                return ast.copy_location(new, node)
+            return node
+    for _ in range(2):
+        fn = _ExprInl().visit(fn)
+    ast.fix_missing_locations(fn)
     return fn
 
 
